@@ -264,9 +264,11 @@ def gen_freq(rng, maxlen, big):
                 pts.insert(rng.randint(0, len(pts)), SPECIAL["0"])
         if not well_conditioned([f], pts):
             continue
+        cls = rng.choice(["ZFilter", "ZFilter", "LinearFilter", "zexpr"])
+        if cls == "zexpr" and (not f["b"] or all(gdec(x) == (0, 0) for x in f["a"])):
+            cls = "ZFilter"
         return {"entry": "freq", "b": f["b"], "a": f["a"], "ctype": f["ctype"], "kind": kind,
-                "pts": [genc(w) for w in pts], "wrap": rng.random() < 0.5,
-                "cls": rng.choice(["ZFilter", "ZFilter", "LinearFilter"])}
+                "pts": [genc(w) for w in pts], "wrap": rng.random() < 0.5, "cls": cls}
     return None
 
 
@@ -366,7 +368,7 @@ def generate(rng, tier, scale=1):
     quick = tier == "quick"
     maxlen = 7 if quick else 11
     big = not quick
-    n = (900 if quick else 24000) * scale
+    n = (6000 if quick else 150000) * scale
     cases = []
     if scale == 1:
         cases += malformed(rng)
@@ -451,6 +453,12 @@ def mk_filter(f, cls="ZFilter"):
     import audiolazy
     b = [py_coeff(x, f.get("ctype", "int")) for x in f["b"]]
     a = [py_coeff(x, f.get("ctype", "int")) for x in f["a"]]
+    if cls == "zexpr":
+        # the way users write filters: sum of b_k z^-k over sum of a_k z^-k, built with the `z` object
+        z = audiolazy.z
+        num = sum(c * z ** -k for k, c in enumerate(b))
+        den = sum(c * z ** -k for k, c in enumerate(a))
+        return num / den
     return getattr(audiolazy, cls)(b, a)
 
 
@@ -554,9 +562,9 @@ def ill_conditioned(c):
     return False
 
 
-def cmp_resp(c, io, exp, label, kind_tag, out):
+def cmp_resp(c, io, exp, label, kind_tag, out, ctor):
     """freq / bank: container kind and per-element values"""
-    err = first_err(exp)
+    err = "ValueError" if ctor else first_err(exp)
     if "err" in io:
         if err != io["err"]:
             out.append((kind_tag, "%s: impl raised %s, %s predicts %s" % (c["entry"], io["err"], label, err or exp)))
@@ -584,8 +592,8 @@ def compare(c, io, drv):
     if e in ("freq", "bank"):
         if ill_conditioned(c):
             return []
-        cmp_resp(c, io, drv["model"], "model", "model", out)
-        cmp_resp(c, io, drv["spec"], "spec", "spec", out)
+        cmp_resp(c, io, drv["model"], "model", "model", out, drv["ctor_model"])
+        cmp_resp(c, io, drv["spec"], "spec", "spec", out, drv["ctor_spec"])
         return out
     if "err" in io:
         for tag in ("model", "spec"):
@@ -781,8 +789,8 @@ def classify(c, io, drv):
         return "%s:raises-%s" % (tag, io["err"])
     exp = drv.get("spec")
     if e in ("freq", "bank"):
-        if first_err(exp):
-            return "%s:expected-%s" % (tag, first_err(exp))
+        if drv.get("ctor_spec") or first_err(exp):
+            return "%s:expected-%s" % (tag, "ValueError" if drv.get("ctor_spec") else first_err(exp))
         if io.get("kind") != RESULT_KIND[c["kind"]]:
             return "%s:container-kind" % tag
         if any(x == "nan" for x in exp) or any(x == "nan" for x in io.get("vals", [])):
